@@ -22,7 +22,10 @@ RULE = ("case = well-formed workflow (2-6, thorough 10 targets; diamonds, shared
         "status` equals model.plan on the new file state and, when the cone holds no live/failed/cancelled job and no "
         "future-dated source, every cone target with outputs is completed; spec records outside the cone unchanged. "
         "Non-trivial: cone depth >=2 with a target having >=2 direct dependencies or a shared dependency, and some "
-        "output older than its input beforehand. Distinct = SHA-1 of canonical case JSON.")
+        "output older than its input beforehand. "
+        "Also: up to two outputs are symbolic links into a data store (existing or dangling; the link itself "
+        "dated long ago); invocation styles of project.Project. "
+        "Distinct = SHA-1 of canonical case JSON.")
 ASSUMPTIONS = [
     "parent directories of outputs exist (DESIGN 6.3)",
     "logical clock: re-stamping in event order is one legal behaviour of the real clock; if a refactor bypasses os.utime/os.open the harness falls back to the observed mtime_ns order",
